@@ -216,11 +216,17 @@ def bounded(ctx):
                         break
             if len(samples) < 3:
                 samples.append(dict(enzyme=name, geometry=[len(site), a, k], chain=chain_len, product_length=len(expected)))
+    # the shared scenarios: this property's oracle over the cross product of the unusual input dimensions
+    from bounded import scenarios as sn
+    n_sw, d_sw, v_sw = sn.sweep(ctx, ns, 'sequence')
+    evals += n_sw
+    distinct |= {("shared",) + tuple(map(str, k_)) for k_ in d_sw}
+    viol.extend(v_sw)
     uniq = {}
     for v in viol:
         uniq.setdefault(v["name"], v)
     return dict(evaluations=evals, distinct_nontrivial=len(distinct),
-                rule="every qualifying enzyme of Bio.Restriction (quick: one per geometry) x chains of 1-3 (4) modules built to the "
+                rule="" + sn.SWEEP_RULE + "; every qualifying enzyme of Bio.Restriction (quick: one per geometry) x chains of 1-3 (4) modules built to the "
                      "formal definition (exactly one forward and one reverse site per plasmid, seeded targets/backbones/placeholders) "
                      "x every rotation of the vector and of the first module (sampled for the others in quick) with the other "
                      "plasmids at random rotations x a random argument order; product compared up to rotation and in length with the "
